@@ -107,6 +107,10 @@ func main() {
 		code := engine.Replay(p, *repo, rest[0], work)
 		os.RemoveAll(work)
 		os.Exit(code)
+	case "allroots":
+		engine.AllRoots(p, *fn)
+	case "writers":
+		engine.Writers(p, *fn, *obl)
 	case "dumpall":
 		engine.DumpAll(p, *fn)
 	case "dump":
